@@ -177,10 +177,13 @@ def plan(tier: str) -> list[dict]:
     if tier == "quick":
         return [{"mode": "lattice", "n": 3, "sam": False, "examples": 30, "cost": 1},
                 {"mode": "lattice", "n": 3, "sam": True, "examples": 30, "cost": 1},
-                {"mode": "lattice", "n": 4, "sam": False, "examples": 4, "cost": 3},
-                {"mode": "lattice", "n": 4, "sam": True, "examples": 3, "cost": 3},
-                {"mode": "path", "min_n": 5, "max_n": 5, "examples": 60, "cost": 3},
-                {"mode": "path", "min_n": 5, "max_n": 6, "examples": 30, "cost": 3}]
+                {"mode": "lattice", "n": 4, "sam": False, "examples": 5, "cost": 3},
+                {"mode": "lattice", "n": 4, "sam": False, "examples": 5, "cost": 3},
+                {"mode": "lattice", "n": 4, "sam": True, "examples": 4, "cost": 3},
+                {"mode": "lattice", "n": 4, "sam": True, "examples": 4, "cost": 3},
+                {"mode": "path", "min_n": 5, "max_n": 5, "examples": 120, "cost": 3},
+                {"mode": "path", "min_n": 5, "max_n": 5, "examples": 120, "cost": 3},
+                {"mode": "path", "min_n": 5, "max_n": 6, "examples": 60, "cost": 3}]
     return ([{"mode": "lattice", "n": 3, "sam": s, "examples": 400, "cost": 2} for s in (False, True)]
             + [{"mode": "lattice", "n": 4, "sam": False, "examples": 40, "cost": 10} for _ in range(5)]
             + [{"mode": "lattice", "n": 4, "sam": True, "examples": 30, "cost": 10} for _ in range(3)]
